@@ -467,45 +467,6 @@ MessageQueue_hasUnconfirmedIMessages(MessageQueue self)
 }
 
 static void
-MessageQueue_setWaitingForTransmissionWhenNotConfirmed(MessageQueue self)
-{
-#if (CONFIG_USE_SEMAPHORES == 1)
-    Semaphore_wait(self->queueLock);
-#endif
-
-    if (self->entryCounter != 0)
-    {
-        uint8_t* entryPtr = self->firstEntry;
-
-        struct sMessageQueueEntryInfo entryInfo;
-
-        while (entryPtr)
-        {
-            memcpy(&entryInfo, entryPtr, sizeof(struct sMessageQueueEntryInfo));
-
-            if (entryInfo.entryState == QUEUE_ENTRY_STATE_SENT_BUT_NOT_CONFIRMED) {
-                entryInfo.entryState = QUEUE_ENTRY_STATE_WAITING_FOR_TRANSMISSION;
-            }
-
-            memcpy(entryPtr, &entryInfo, sizeof(struct sMessageQueueEntryInfo));
-
-            if (entryPtr == self->lastEntry)
-                break;
-
-            /* move to next entry */
-            if (entryPtr == self->lastInBufferEntry)
-                entryPtr = self->buffer;
-            else
-                entryPtr = entryPtr + sizeof(struct sMessageQueueEntryInfo) + entryInfo.size;
-        }
-    }
-
-#if (CONFIG_USE_SEMAPHORES == 1)
-    Semaphore_post(self->queueLock);
-#endif
-}
-
-static void
 MessageQueue_releaseAllQueuedASDUs(MessageQueue self)
 {
 #if (CONFIG_USE_SEMAPHORES == 1)
@@ -575,6 +536,32 @@ MessageQueue_markAsduAsConfirmed(MessageQueue self, uint8_t* queueEntry, uint64_
             else {
                 /* we shouldn't be here - probably bug in queue handling code */
                 DEBUG_PRINT("CS104 SLAVE: message queue corrupted\n");
+            }
+        }
+    }
+}
+
+/**
+ * Set a single entry that was sent but not confirmed back to "waiting for transmission"
+ * (when the connection that sent it is closed)
+ */
+static void
+MessageQueue_setEntryWaitingForTransmission(MessageQueue self, uint8_t* queueEntry, uint64_t entryId)
+{
+    if (self->entryCounter > 0)
+    {
+        /* entryId plausibility check */
+        uint64_t entryIdDiff = self->entryId - 1 - entryId;
+
+        if (entryIdDiff < (unsigned) self->entryCounter)
+        {
+            struct sMessageQueueEntryInfo entryInfo;
+            memcpy(&entryInfo, queueEntry, sizeof(struct sMessageQueueEntryInfo));
+
+            if ((entryInfo.entryId == entryId) && (entryInfo.entryState == QUEUE_ENTRY_STATE_SENT_BUT_NOT_CONFIRMED))
+            {
+                entryInfo.entryState = QUEUE_ENTRY_STATE_WAITING_FOR_TRANSMISSION;
+                memcpy(queueEntry, &entryInfo, sizeof(struct sMessageQueueEntryInfo));
             }
         }
     }
@@ -3105,6 +3092,43 @@ CS104_Slave_closeAllConnections(CS104_Slave self)
 #endif
 }
 
+/**
+ * The connection is closed: the ASDUs of the low-priority queue that were sent on THIS
+ * connection and are not yet confirmed have to be sent again on the next active connection.
+ * Entries sent by another (still open) connection of the same redundancy group are not touched.
+ */
+static void
+MasterConnection_resetUnconfirmedQueueEntries(MasterConnection self)
+{
+#if (CONFIG_USE_SEMAPHORES == 1)
+    Semaphore_wait(self->sentASDUsLock);
+#endif
+
+    if ((self->oldestSentASDU != -1) && (self->lowPrioQueue != NULL))
+    {
+        MessageQueue_lock(self->lowPrioQueue);
+
+        int index = self->oldestSentASDU;
+
+        while (true)
+        {
+            if (self->sentASDUs[index].queueEntry != NULL)
+                MessageQueue_setEntryWaitingForTransmission(self->lowPrioQueue, self->sentASDUs[index].queueEntry, self->sentASDUs[index].entryId);
+
+            if (index == self->newestSentASDU)
+                break;
+
+            index = (index + 1) % self->maxSentASDUs;
+        }
+
+        MessageQueue_unlock(self->lowPrioQueue);
+    }
+
+#if (CONFIG_USE_SEMAPHORES == 1)
+    Semaphore_post(self->sentASDUsLock);
+#endif
+}
+
 static void*
 connectionHandlingThread(void* parameter)
 {
@@ -3226,7 +3250,7 @@ connectionHandlingThread(void* parameter)
     Semaphore_post(self->stateLock);
 #endif /* (CONFIG_USE_SEMAPHORES == 1) */
 
-    MessageQueue_setWaitingForTransmissionWhenNotConfirmed(self->lowPrioQueue);
+    MasterConnection_resetUnconfirmedQueueEntries(self);
 
     return NULL;
 }
@@ -3650,7 +3674,7 @@ handleClientConnections(CS104_Slave self)
 
                     self->masterConnections[i]->isUsed = false;
 
-                    MessageQueue_setWaitingForTransmissionWhenNotConfirmed(self->masterConnections[i]->lowPrioQueue);
+                    MasterConnection_resetUnconfirmedQueueEntries(self->masterConnections[i]);
 
                     self->openConnections--;
 
